@@ -95,7 +95,7 @@ def run(ctx):
     for i in range(4):
         ds = ir.drivers('self.source.valid', exact=True)
         d = [x for x in ds if x.lhs.canon() == 'self.source.valid[%d:%d]' % (i, i + 1)]
-        ok = len(d) == 1 and d[0].rhs.canon() == '(data_bytes_remaining > %d) & self.sink.valid' % i
+        ok = len(d) == 1 and q.conj(d[0].rhs) == {('data_bytes_remaining >= %d' % (i + 1), True), ('self.sink.valid', True)}
         ctx.ob('C40.byte-valid', 'DataPacketReceiver.source.valid[%d]' % i, ok, d[0].loc if d else None,
                'valid[%d] must be (remaining > %d) & sink.valid' % (i, i))
     for port, val in (('advance_word', 15), ('advance_3B', 7), ('advance_2B', 3), ('advance_1B', 1)):
@@ -109,7 +109,7 @@ def run(ctx):
     ctx.ob('C40.length', 'DataPacketReceiver.remaining.load', len(load) == 1 and q.atoms(load[0]) == q.atoms(acc[0]),
            load[0].loc if load else None, 'remaining bytes loaded from dw1[16:32] on the accepted-header edge')
     ctx.ob('C40.length', 'DataPacketReceiver.remaining.dec', len(dec) == 1 and len(ld) == 2 and
-           q.atoms(dec[0]) == {(V, True), ('data_bytes_remaining > 4', True)}, dec[0].loc if dec else None,
+           q.atoms(dec[0]) == {(V, True), ('data_bytes_remaining >= 5', True)}, dec[0].loc if dec else None,
            'remaining bytes decremented by 4 per valid word while more than 4 remain')
     for k, (pv, want) in enumerate(((15, 'self.sink.payload'), (7, 'Cat(previous_word[24:32], self.sink.payload[0:24])'),
                                     (3, 'Cat(previous_word[16:32], self.sink.payload[0:16])'),
